@@ -261,6 +261,43 @@ def run(ctx: Ctx):
         ctx.inst(cons, sample={"where": gh.loc(n), "closed": closed, "closing": closing, "buffer_empty": empty})
         # pending output = bytes in the buffer AND messages not yet appended to it
         queued_none = (f"{cv}.has_queued_messages", "truthy", None, False) in facts
+        if not queued_none:
+            # the same condition held in a boolean local (`idle = not conn.has_queued_messages`)
+            for s_, op_, v_, t_ in facts:
+                if op_ == "truthy" and s_.isidentifier():
+                    try:
+                        a_ = ath.atom(ast.parse(A.resolve_local_chain(hc.node, ast.Name(id=s_, ctx=ast.Load())),
+                                                mode="eval").body)
+                    except SyntaxError:
+                        continue
+                    if a_.subject == f"{cv}.has_queued_messages" and a_.op == "truthy" and (t_ != a_.flip) is False:
+                        queued_none = True
+        # "nothing queued" is read BEFORE "buffer empty" (outside the write lock): the writer
+        # appends first and counts the message as done afterwards, so the other order can see an
+        # empty buffer, then - after the append and task_done() - an idle queue
+        if closing and empty and not closed and queued_none and tag != "after-send":
+            ctx.inst(cons + "#order")
+            rd_q = [x for x in gh.nodes if x.kind in ("test", "stmt") and x.ast is not None
+                    and f"{cv}.has_queued_messages" in x.text(400) and x.kind == "test" or
+                    (x.kind == "stmt" and isinstance(x.ast, ast.Assign) and x.ast is not None
+                     and f"{cv}.has_queued_messages" in x.text(400))]
+            rd_b = [x for x in gh.nodes if x.kind == "test" and x.ast is not None
+                    and f"len({cv}.write_buffer)" in x.text(400)]
+            heads_ = [x for x in gh.nodes if x.kind in ("loop", "iter")]
+            bad = None
+            for b_ in rd_b:
+                if n not in gh.reach([b_], blocked=heads_):
+                    continue
+                later_q = [q_ for q_ in rd_q if q_ in gh.reach([b_], blocked=heads_, include_starts=False)
+                           and n in gh.reach([q_], blocked=heads_)]
+                if later_q:
+                    bad = (b_, later_q[0])
+            if bad:
+                ctx.fail(cons + "#order", gh.loc(bad[0]),
+                         f"at this close site the write buffer is found empty BEFORE "
+                         f"`{cv}.has_queued_messages` is read: the writer thread can append a message "
+                         f"and count it as done between the two reads, and the connection is closed "
+                         f"with that message still in the buffer")
         if closing and empty and not closed and not queued_none:
             ctx.fail(cons + "#queued", gh.loc(n),
                      f"a CLOSING connection is closed as soon as its write buffer is empty, without "
